@@ -1,9 +1,9 @@
 package rules
 
 import (
+	"fmt"
 	"go/token"
 	"go/types"
-	"fmt"
 	"sort"
 	"strings"
 
